@@ -81,6 +81,8 @@ impl<'a, R: Read> Lexer<Scanner<'a, R>> {
         #[cfg(feature = "verif-hooks")]
         crate::verif_hooks::tick("zinc::Lexer::read");
         while !self.scanner.is_eof {
+            #[cfg(feature = "verif-hooks")]
+            crate::verif_hooks::tick("zinc::Lexer::read loop");
             match self.scanner.cur {
                 // Spaces
                 b' ' | b'\t' => {
